@@ -15,9 +15,10 @@ Fixpoint args_ok (o : op) : Prop :=
   | OSetFrom a _ _ | OAppendS a | OMinusS a | OIndexOfS a _ | OLastIndexOfS1 a | OLastIndexOfS a _ | OCountS a _
   | OStartsS a | OEndsS a | OStartsSI a | OEndsSI a | OCompare a | OCompareI a | OEqualsI a | OIndexOfSI a _ | OLastIndexOfSI a _
   | OSubstringAfter a | OSubstringUntil _ a | OWithInsertS _ a _ | OArgS a | OWithSuffixS a | OWithPrefixS a
-  | OWithoutSuffixS a _ | OWithoutPrefixS a _ | OPlusS a | OWithoutSuffixSI a _ | OWithoutPrefixSI a _ => sarg_ok a
+  | OWithoutSuffixS a _ | OWithoutPrefixS a _ | OPlusS a | OWithoutSuffixSI a _ | OWithoutPrefixSI a _ | OGetDistance a _ | ONumCmp a _ => sarg_ok a
   | OReplaceS a b _ _ | OWithReplS a b _ _ => sarg_ok a /\ sarg_ok b
   | OWithWord _ a sep => sarg_ok a /\ nulfree sep
+  | OEscaped seps _ => nulfree seps
   | OAppendCh ch | OSetAt _ ch => ch <> 0
   | OReplaceCh _ b _ _ | OWithReplCh _ b _ _ => b <> 0
   | OSwap _ l => nulfree l /\ lenN l < LIM
@@ -38,6 +39,7 @@ Fixpoint need (l : list N) (o : op) : N :=
   | OShiftBool _ => n + 6
   | OWithWord _ a sep => n + lenN (lit_of l a) + 2 * lenN sep + 1
   | OIndented k _ => n * (k + 1) + k + 1
+  | OEscaped _ _ => 3 * n + 1
   | OPrealloc k => k + 1
   | OShrink extra => n + 1 + extra
   | OReplaceS _ wm _ _ | OWithReplS _ wm _ _ => n + lenN (lit_of l wm) * n + 1
@@ -196,6 +198,7 @@ Local Notation without_prefix_ch_nc_spec := (StrProd.without_prefix_ch_nc_spec M
 Local Notation strip_ch_prefix_nc_suffix := (StrProd.strip_ch_prefix_nc_suffix M TH PG OV jk M_pos TH_ge PG_pos PG_le OV_lt M_le).
 Local Notation with_word_spec := (StrProd.with_word_spec M TH PG OV jk M_pos TH_ge PG_pos PG_le OV_lt M_le).
 Local Notation indented_spec := (StrProd.indented_spec M TH PG OV jk M_pos TH_ge PG_pos PG_le OV_lt M_le).
+Local Notation escaped_spec := (StrProd.escaped_spec M TH PG OV jk M_pos TH_ge PG_pos PG_le OV_lt M_le).
 Local Notation subj_ok := (StrProd.subj_ok M).
 Local Notation step1 := (step1 M TH PG OV jk true).
 Local Notation mutate := (mutate M TH PG OV jk true).
@@ -491,6 +494,9 @@ Proof.
     + eexists; splits; [reflexivity| |exact I']. f_equal. now rewrite A', osrc_bytes.
   - (* IndentedBy *)
     destruct (indented_spec s n ch Sb) as (I' & A'); [rewrite <- Ls; exact Nd|].
+    eexists; splits; [reflexivity|f_equal; exact A'|exact I'].
+  - (* WithCharsEscaped *)
+    destruct (escaped_spec s seps esc Sb) as (I' & A'); [rewrite <- Ls; exact Nd|].
     eexists; splits; [reflexivity|f_equal; exact A'|exact I'].
 Qed.
 
